@@ -2191,6 +2191,7 @@ Grammar* DGXMLScanner::loadDTDGrammar(const InputSource& src,
         , fMemoryManager
     );
     dtdScanner.setScannerInfo(this, &fReaderMgr, &fBufMgr);
+    dtdScanner.setScanningStandaloneDTD();
 
     // Tell it its not in an include section
     dtdScanner.scanExtSubsetDecl(false, true);
